@@ -197,4 +197,177 @@ example : (revealedIdx ((["a", "b", "c"].take 3).map fun l => if ["c", "a", "z"]
     (["a", "b", "c"][·]?) = ["a", "c"] := by decide
 
 
+/-! ### the honest report passes the verifier's check -/
+
+/-- counting by index = counting by element -/
+theorem length_filter_range (l : List String) (p : String → Bool) :
+    ((List.range l.length).filter fun i => match l[i]? with | some a => p a | none => false).length
+      = (l.filter p).length := by
+  induction l using List.reverseRecOn with
+  | nil => simp
+  | append_singleton l a ih =>
+    rw [List.length_append, List.length_singleton, List.range_succ, List.filter_append, List.filter_append,
+      List.length_append, List.length_append]
+    congr 1
+    · rw [← ih]
+      congr 1
+      apply List.filter_congr
+      intro i hi
+      have hlt : i < l.length := List.mem_range.1 hi
+      rw [List.getElem?_append_left hlt]
+    · have hget : (l ++ [a])[l.length]? = some a := by
+        rw [List.getElem?_append_right (Nat.le_refl _)]; simp
+      simp only [List.filter_cons, List.filter_nil, hget]
+      split <;> rfl
+
+theorem filter_mem_comm_length (a b : List String) (ha : a.Nodup) (hb : b.Nodup) :
+    (a.filter (b.contains ·)).length = (b.filter (a.contains ·)).length := by
+  apply List.Perm.length_eq
+  rw [List.perm_ext_iff_of_nodup (ha.filter _) (hb.filter _)]
+  intro x
+  simp only [List.mem_filter, List.contains_eq_mem, decide_eq_true_eq]
+  exact ⟨fun h => ⟨h.2, h.1⟩, fun h => ⟨h.2, h.1⟩⟩
+
+theorem indexOf_nodup (labels : List String) (hnd : labels.Nodup) (i : Nat) (l : String)
+    (h : labels[i]? = some l) : indexOf? labels l = some i := by
+  unfold indexOf?
+  induction labels generalizing i with
+  | nil => simp at h
+  | cons a as ih =>
+    cases i with
+    | zero =>
+      simp at h; subst h
+      simp [List.findIdx?_cons]
+    | succ j =>
+      simp only [List.getElem?_cons_succ] at h
+      have hne : a ≠ l := by
+        intro e; subst e
+        exact (List.nodup_cons.1 hnd).1 (List.mem_of_getElem? h)
+      have := ih (List.nodup_cons.1 hnd).2 j h
+      simp only [List.findIdx?_cons, beq_iff_eq, hne, if_false, Bool.false_eq_true]
+      cases hf : as.findIdx? (· == l) with
+      | none => simp [hf] at this
+      | some k => simp [hf] at this ⊢; exact this
+
+
+theorem length_filterMap_of_isSome {α β : Type} (f : α → Option β) (l : List α)
+    (h : ∀ x ∈ l, (f x).isSome = true) : (l.filterMap f).length = l.length := by
+  induction l with
+  | nil => rfl
+  | cons a as ih =>
+    have ha := h a (by simp)
+    cases hf : f a with
+    | none => simp [hf] at ha
+    | some b =>
+      simp only [List.filterMap_cons, hf, List.length_cons]
+      rw [ih fun x hx => h x (List.mem_cons_of_mem _ hx)]
+
+theorem lookup_of_key_determines {β : Type} (l : List (Nat × β)) (k : Nat) (v : β)
+    (hex : (k, v) ∈ l) (hall : ∀ v', (k, v') ∈ l → v' = v) : l.lookup k = some v := by
+  induction l with
+  | nil => cases hex
+  | cons a as ih =>
+    obtain ⟨a1, a2⟩ := a
+    by_cases hk : k = a1
+    · subst hk
+      have : a2 = v := hall a2 (by simp)
+      simp [List.lookup, this]
+    · have hne : (k == a1) = false := by simpa using hk
+      simp only [List.lookup, hne]
+      apply ih
+      · rcases List.mem_cons.1 hex with h | h
+        · cases h; exact absurd rfl hk
+        · exact h
+      · intro v' h; exact hall v' (List.mem_cons_of_mem _ h)
+
+/-- the message vector for a credential that has a claim for every label -/
+def fullVector (disclosed labels : List String) : List Msg :=
+  labels.map fun l => if disclosed.contains l then Msg.revealed else Msg.hidden
+
+theorem mem_revealedIdx_full (disclosed labels : List String) (i : Nat) :
+    i ∈ revealedIdx (fullVector disclosed labels) ↔ ∃ l, labels[i]? = some l ∧ l ∈ disclosed := by
+  have := revealedIdx_spec disclosed labels labels.length i
+  simpa [fullVector] using this
+
+/-- **The honest report passes the disclosed-claims check.** A credential with one claim per schema label,
+each of the schema's type, presented under a statement requesting `disclosed`: the reported map (labels of the
+revealed claims with the claims, as `create` files them) and the signature proof's index → scalar map (the
+encodings of the revealed claims) pass `checkDisclosed` — for every schema with distinct labels, every
+requested set (labels unknown to the schema included) and every claim vector. With `create_passes_verify_plan`
+this discharges that theorem's hypothesis about the disclosed-claims check. -/
+theorem honest_report_passes_check {F : Type} [DecidableEq F] (enc : ClaimData → F) (id : String)
+    (disclosed labels : List String) (types : List ClaimType) (claims : List ClaimData)
+    (hl : labels.Nodup) (hd : disclosed.Nodup)
+    (hn : claims.length = labels.length) (ht : types.length = labels.length)
+    (hty : ∀ (i : Nat) (c : ClaimData) (t : ClaimType), claims[i]? = some c → types[i]? = some t → c.type = t) :
+    let idx := revealedIdx (fullVector disclosed labels)
+    let rep := idx.filterMap fun i => match labels[i]?, claims[i]? with
+      | some l, some c => some (l, c)
+      | _, _ => none
+    let inner : Inner F := idx.filterMap fun i => (claims[i]?).map fun c => (i, enc c)
+    checkDisclosed enc ⟨id, disclosed, labels, types⟩ inner rep = true := by
+  intro idx rep inner
+  -- every revealed index has a label (requested) and a claim
+  have hidx : ∀ i ∈ idx, ∃ l c, labels[i]? = some l ∧ l ∈ disclosed ∧ claims[i]? = some c := by
+    intro i hi
+    obtain ⟨l, hl', hd'⟩ := (mem_revealedIdx_full disclosed labels i).1 hi
+    have hlt : i < labels.length := by
+      rcases Nat.lt_or_ge i labels.length with h | h
+      · exact h
+      · rw [List.getElem?_eq_none h] at hl'; cases hl'
+    have hc : i < claims.length := by omega
+    exact ⟨l, claims[i], hl', hd', List.getElem?_eq_getElem hc⟩
+  have hrepLen : rep.length = idx.length := by
+    apply length_filterMap_of_isSome
+    intro i hi
+    obtain ⟨l, c, h1, _, h3⟩ := hidx i hi
+    simp [h1, h3]
+  have hinnerLen : inner.length = idx.length := by
+    apply length_filterMap_of_isSome
+    intro i hi
+    obtain ⟨l, c, _, _, h3⟩ := hidx i hi
+    simp [h3]
+  have hidxLen : idx.length = (disclosed.filter (labels.contains ·)).length := by
+    rw [← filter_mem_comm_length labels disclosed hl hd, ← length_filter_range labels (disclosed.contains ·)]
+    simp only [idx, revealedIdx, fullVector, List.length_map]
+    congr 1
+    apply List.filter_congr
+    intro i _
+    simp only [List.getElem?_map]
+    cases labels[i]? with
+    | none => simp
+    | some a =>
+      by_cases h : a ∈ disclosed
+      · simp [h]
+      · simp [h]
+  unfold checkDisclosed
+  simp only [Bool.and_eq_true, beq_iff_eq, List.all_eq_true]
+  refine ⟨⟨by rw [hrepLen, hidxLen], by rw [hinnerLen, hrepLen]⟩, ?_⟩
+  rintro ⟨l, c⟩ hmem
+  obtain ⟨i, hi, hic⟩ := List.mem_filterMap.1 hmem
+  obtain ⟨l', c', h1, h2, h3⟩ := hidx i hi
+  simp only [h1, h3, Option.some.injEq, Prod.mk.injEq] at hic
+  obtain ⟨e1, e2⟩ := hic
+  subst e1; subst e2
+  have hlt : i < labels.length := by
+    rcases Nat.lt_or_ge i labels.length with h | h
+    · exact h
+    · rw [List.getElem?_eq_none h] at h1; cases h1
+  have htl : i < types.length := by omega
+  have htype : types[i]? = some types[i] := List.getElem?_eq_getElem htl
+  have hlook : inner.lookup i = some (enc c') := by
+    apply lookup_of_key_determines
+    · exact List.mem_filterMap.2 ⟨i, hi, by simp [h3]⟩
+    · intro v' hv'
+      obtain ⟨j, _, hj⟩ := List.mem_filterMap.1 hv'
+      cases hcj : claims[j]? with
+      | none => simp [hcj] at hj
+      | some cj =>
+        simp only [hcj, Option.map_some, Option.some.injEq, Prod.mk.injEq] at hj
+        obtain ⟨rfl, rfl⟩ := hj
+        rw [h3] at hcj; cases hcj; rfl
+  have hio := indexOf_nodup labels hl i l' h1
+  have hct := hty i c' types[i] h3 htype
+  simp [h2, hio, htype, hct, hlook]
+
 end AC.C02
